@@ -11,6 +11,7 @@ import (
 
 var (
 	directoryRegexp = regexp.MustCompile(`.*\/`)
+	goitDirPattern  = `\.goit/.*`
 )
 
 type Ignore struct {
@@ -27,7 +28,7 @@ func NewIgnore(rootGoitPath string) (*Ignore, error) {
 
 func newIgnore() *Ignore {
 	return &Ignore{
-		paths: []string{`\.goit/.*`},
+		paths: []string{goitDirPattern},
 	}
 }
 
@@ -72,6 +73,10 @@ func (i *Ignore) IsIncluded(path string, index *Index) bool {
 		}
 	}
 	for _, exFile := range i.paths {
+		// .goit directory exists only at the root, so a.goit/ or sub/.goit/ must not match
+		if exFile == goitDirPattern {
+			exFile = "^" + exFile
+		}
 		exRegexp := regexp.MustCompile(exFile)
 		if exRegexp.MatchString(target) {
 			return true
